@@ -26,12 +26,15 @@ ASSUMPTIONS = [
     "works from the UTC reading of the instant",
     "instants are kept >= 50 min away from 0h UTC: which day's EOP record serves next to midnight, and leap "
     "seconds, are decided by C03 / C04",
-    "the derivative clause is not applied to QSW / TNW orientations (instantaneous axes, no rate by design); "
+    "the derivative clause is not applied to a frame centred on an SGP4 orbit (its velocity is not the exact "
+    "derivative of its position, by a few cm/s), nor to QSW / TNW orientations (instantaneous axes, no rate by design); "
     "it allows for the precession / nutation rate the model leaves out (<= 1.8e-11 rad/s; 2e-10 rad/s x geocentric "
     "distance allowed) and for the 40 us staircase of the library's sidereal time (single-float Julian date)",
     "body-centred frames: the library hands jplephem a single-float Julian date (40 us); their derivative "
     "clause is checked with 600 s / 2400 s differences to 0.02 m/s + 1e-7 |v|",
-    "worlds (stations, orbit, epoch) are a fixed function of the world number carried by the case",
+    "worlds (stations, orbit, epoch) are a fixed function of the world number carried by the case; the reference "
+    "orbit of the ORB / QSW / TNW frames propagates in EME2000, TEME (SGP4 from a TLE), MOD, GCRF, G50 or TOD, the "
+    "parent of the local frames being EME2000, MOD or GCRF",
 ]
 
 BUILTIN = ["EME2000", "MOD", "TOD", "TEME", "PEF", "ITRF", "WGS84", "TIRF", "CIRF", "GCRF", "G50"]
@@ -87,12 +90,49 @@ def _g(wid, k):
     return ((wid + 1) * _IRR[k]) % 1.0
 
 
+# (frame the reference orbit of ORB / QSW / TNW is expressed in, parent frame of the local frames):
+# the reference orbit propagates in its own frame, which is mostly *not* the parent's
+REFERENCES = [("EME2000", "EME2000"), ("TEME", "EME2000"), ("MOD", "EME2000"), ("GCRF", "EME2000"),
+              ("G50", "EME2000"), ("TOD", "MOD"), ("TEME", "GCRF")]
+
+
+def reference_orbit(spec):
+    """Kepler orbit given in spec['ref_frame']; for TEME an SGP4 orbit from a TLE written by the
+    independent formatter (epoch = epoch of the world, near-Earth elements)."""
+    from beyond.dates import Date
+    from beyond.orbits import Orbit
+    from beyond.propagators.kepler import Kepler
+
+    k = spec["kep"]
+    if spec["ref_frame"] == "TEME":
+        import datetime
+
+        from beyond.io.tle import Tle
+
+        from ..oracles import tlefmt
+
+        day0 = datetime.date(1858, 11, 17) + datetime.timedelta(days=spec["epoch"])
+        doy = (day0 - datetime.date(day0.year, 1, 1)).days + 1
+        f = dict(name=None, cat=25544, cls="U", desig=dict(yy=98, launch=67, piece="A"),
+                 eyy=day0.year % 100, eday=doy * 10**8 + 50000000,  # 12h of the epoch day
+                 ndot=1234, nddot=dict(s=1, m=0, x=0), bstar=dict(s=1, m=31745, x=-4), etype=0, elnum=999,
+                 inc=int(round(math.degrees(k["i"]) * 1e4)), raan=int(round(math.degrees(k["raan"]) * 1e4)) % 3600000,
+                 ecc=int(1e7 * min(k["e"], 0.6) / 60) + 1000, argp=int(round(math.degrees(k["argp"]) * 1e4)) % 3600000,
+                 ma=int(round(math.degrees(k["nu"]) * 1e4)) % 3600000,
+                 n=int((14.0 + 1.5 * (k["e"] / 0.6)) * 1e8), rev=1234)
+        return Tle(tlefmt.format_text(f)).orbit()
+    cart = tb.kep2cart(k["a"], k["e"], k["i"], k["raan"], k["argp"], k["nu"], MU_EARTH)
+    return Orbit(list(cart), Date(spec["epoch"], 43200.0), "cartesian", spec["ref_frame"], Kepler())
+
+
 def world_spec(wid, jpl):
     """Everything that defines the generated frames of world `wid` (no random source)."""
     lo, hi = (51700, 57700) if jpl else (41800, 57700)
     e = 0.6 * _g(wid, 8) ** 2
     rp = 6.7e6 * (6.0 ** _g(wid, 7))
+    ref_frame, parent = REFERENCES[wid % len(REFERENCES)]
     return dict(
+        ref_frame=ref_frame, parent=parent,
         stations=[(-85.0 + 170.0 * _g(wid, 0), -180.0 + 540.0 * _g(wid, 1), 4000.0 * _g(wid, 2)),
                   (85.0 - 170.0 * _g(wid, 3), -180.0 + 540.0 * _g(wid, 4), 4000.0 * _g(wid, 5) - 300.0)],
         epoch=lo + int((hi - lo) * _g(wid, 6)),
@@ -105,27 +145,34 @@ def world(wid, jpl):
     """Registers (once per process) the 5 generated frames of the world and returns label -> frame."""
     if wid in _worlds:
         return _worlds[wid]
-    from beyond.dates import Date
     from beyond.frames import create_station, frames
-    from beyond.orbits import Orbit
-    from beyond.propagators.kepler import Kepler
 
     spec = world_spec(wid, jpl)
-    k = spec["kep"]
-    cart = tb.kep2cart(k["a"], k["e"], k["i"], k["raan"], k["argp"], k["nu"], MU_EARTH)
-    orb = Orbit(list(cart), Date(spec["epoch"], 43200.0), "cartesian", "EME2000", Kepler())
+    orb = reference_orbit(spec)
+    parent = frames.get_frame(spec["parent"])
     fr = {
         "S0": create_station(f"W{wid}S0", spec["stations"][0]),
         "S1": create_station(f"W{wid}S1", spec["stations"][1]),
-        "ORB": frames.orbit2frame(f"W{wid}O", orb),
-        "QSW": frames.orbit2frame(f"W{wid}Q", orb, orientation="QSW"),
-        "TNW": frames.orbit2frame(f"W{wid}T", orb, orientation="TNW"),
+        "ORB": frames.orbit2frame(f"W{wid}O", orb, parent=parent),
+        "QSW": frames.orbit2frame(f"W{wid}Q", orb, orientation="QSW", parent=parent),
+        "TNW": frames.orbit2frame(f"W{wid}T", orb, orientation="TNW", parent=parent),
     }
     for name in BUILTIN + (JPL if jpl else []):
         fr[name] = frames.get_frame(name)
     fr["_spec"] = spec
     _worlds[wid] = fr
     return fr
+
+
+def prime(fr, case):
+    """Every case starts from the same library state: one conversion through each orbit-attached
+    frame at *another* date first.  Anything the library keeps from its last call (which a
+    conforming library does not) is then the same on a replay of the case as on its first run."""
+    from beyond.orbits import StateVector
+
+    other = mkdate(case["mjd"] + 3, 43200 * 10**6)
+    for name in ("ORB", "QSW", "TNW"):
+        StateVector([1e6, 2e6, 3e6, 1.0, 2.0, 3.0], other, "cartesian", "EME2000").copy(frame=fr[name])
 
 
 def labels_of(case):
@@ -271,7 +318,9 @@ def pair_classes(a, b):
 
 
 def case_classes(case):
-    return [f"eop:{eop_of(case['shard'])}", "jpl" if case.get("jpl") else "earth-only", era_label(case["mjd"]),
+    spec = world_spec(case["world"], case["jpl"]) if "world" in case else None
+    extra = [f"ref:{spec['ref_frame']}/parent:{spec['parent']}"] if spec else []
+    return extra + [f"eop:{eop_of(case['shard'])}", "jpl" if case.get("jpl") else "earth-only", era_label(case["mjd"]),
             f"label:{case.get('label', 'UTC')}"]
 
 
@@ -280,6 +329,7 @@ def case_classes(case):
 
 def check_inverse(case):
     fr = world(case["world"], case["jpl"])
+    prime(fr, case)
     dt = mkdate(case["mjd"], case["sod_us"], case.get("label", "UTC"))
     x = np.array(case["state"], float)
     names = labels_of(case)
@@ -302,6 +352,7 @@ def check_inverse(case):
 
 def check_path(case):
     fr = world(case["world"], case["jpl"])
+    prime(fr, case)
     dt = mkdate(case["mjd"], case["sod_us"], case.get("label", "UTC"))
     x = np.array(case["state"], float)
     names = labels_of(case)
@@ -338,6 +389,7 @@ def check_path(case):
 
 def check_rigid(case):
     fr = world(case["world"], case["jpl"])
+    prime(fr, case)
     dt = mkdate(case["mjd"], case["sod_us"], case.get("label", "UTC"))
     p = np.array(case["state"][:3], float)
     names = labels_of(case)
@@ -414,6 +466,7 @@ def kin_plan(a, b):
 
 def check_kinematics(case):
     fr = world(case["world"], case["jpl"])
+    prime(fr, case)
     mjd, sod = case["mjd"], case["sod_us"]
     label = case.get("label", "UTC")
     dt = mkdate(mjd, sod, label)
@@ -421,6 +474,10 @@ def check_kinematics(case):
     worst = 0.0
     cls = set()
     pairs = [(a, b) for a in KIN for b in KIN if a != b]
+    if world_spec(case["world"], case["jpl"])["ref_frame"] == "TEME":
+        # an SGP4 velocity is not the exact derivative of the SGP4 position (centimetres per second;
+        # the theory's own property, decided against the reference implementation by C07)
+        pairs = [(a, b) for a, b in pairs if "ORB" not in (a, b)]
     if case["jpl"]:
         pairs += [(a, b) for a in KIN_JPL for b in KIN_JPL if a != b and (a in JPL or b in JPL)]
     for k, (a, b) in enumerate(pairs):
